@@ -261,6 +261,9 @@ func (x *Exec) nilCheck(f *Frame, st *State, ins ssa.Instruction, p Value) {
 }
 
 func (f *Frame) wantSafety() bool {
+	if f.x.famSafety {
+		return true // the closures of a family whose contract is flagged "safety"
+	}
 	for fr := f; fr != nil; fr = fr.caller {
 		if fr.top {
 			return fr.spec != nil && fr.spec.Flags["safety"]
